@@ -67,7 +67,7 @@ def snapshot(root, keymap, code_texts):
         fixed = []
         for fn, cls in [c2 for c2 in ct if isinstance(c2[0], str)]:
             kind = "out" if fn == "output.pkl" else "metaf" if fn == "metadata.json" else "tmpo" if fn.startswith("output.pkl") else "tmpm"
-            pth = ["F", key, kind] + ([1] if kind.startswith("tmp") else [])
+            pth = ["F", key, kind + ("1" if kind.startswith("tmp") else "")]
             ex.append(pth); fixed.append([pth, cls])
         ct = [c2 for c2 in ct if not isinstance(c2[0], str)] + fixed
     return cachefs_model.canon(ex, ct)
